@@ -44,6 +44,11 @@ def make_file(rng, d, ftype, N, hkind, comp, k):
     velz = float(rng.uniform(100, 3000))
     ppd = int(rng.choice([64, 6912]))
     hdr = header(hkind, box, velz, ppd)
+    # the header stores ppd as a float; headers derived from NP**(1/3) hold a value a few ulp off the integer
+    if k % 5 == 2:
+        hdr['ppd'] = float(ppd**3) ** (1 / 3)
+    elif k % 5 == 4:
+        hdr['ppd'] = float(np.nextafter(float(ppd), np.inf))
     if ftype == 'rvint':
         data = rng.integers(0, 1 << 32, (N, 3), dtype=np.uint64).astype(np.uint32).view(np.int32)
     elif ftype == 'pack9':
